@@ -71,7 +71,26 @@ fn gen_number(src: &mut Src) -> Value {
   }
 }
 
+// long strings of multi-byte characters with a short ASCII prefix: byte offsets such as 64,
+// 100, 200, 256 fall inside a character for some prefix length
+fn gen_long_unicode(src: &mut Src) -> String {
+  let prefix = src.below(4);
+  let ch = src.pick(&['\u{e9}', '\u{20ac}', '\u{65e5}', '\u{1F600}', '\u{a7}']);
+  let n = src.pick(&[20usize, 33, 50, 70, 100, 130, 260]);
+  let mut s: String = std::iter::repeat('x').take(prefix).collect();
+  for i in 0..n {
+    s.push(ch);
+    if i % 17 == 16 {
+      s.push(' ');
+    }
+  }
+  s
+}
+
 fn gen_scalar(src: &mut Src) -> Value {
+  if src.chance(3) {
+    return Value::String(gen_long_unicode(src));
+  }
   match src.below(8) {
     0 => Value::Null,
     1 => Value::Bool(src.chance(50)),
@@ -196,6 +215,9 @@ fn gen_mapping(src: &mut Src) -> Value {
   if src.chance(4) {
     m.insert(src.pick(FIELD_WORDS).to_string(), gen_any(src, 1));
   }
+  if src.chance(3) {
+    m.insert("comment".to_string(), Value::String(gen_long_unicode(src)));
+  }
   Value::Object(m)
 }
 
@@ -210,6 +232,22 @@ pub fn gen_tree(src: &mut Src) -> Value {
         if src.chance(50) {
           maps.push(json!({"from": src.pick(&["RIGHTSHIFT", "RIGHTALT", "LEFTSHIFT"]), "to": src.pick(&["@shift", "@symbol", "@a"])}));
         }
+      }
+      if src.chance(6) {
+        // alias names that are joins of other alias names (separator-joined names are the classic
+        // way two different lists collide in a derived key), used next to the lists themselves
+        let (a, b) = (src.pick(&["@shift", "@ctrl", "@a"]), src.pick(&["@symbol", "@alt", "@b"]));
+        let sep = src.pick(&["+", ",", " ", "|", "-", "", ", "]);
+        let joined = format!("{}{}{}", a, sep, b);
+        maps.push(json!({"from": "LEFTCTRL", "to": a}));
+        maps.push(json!({"from": "LEFTALT", "to": b}));
+        maps.push(json!({"from": "CAPSLOCK", "to": joined}));
+        let k = src.pick(&["T", "SPACE", "A"]);
+        let mut two = vec![json!({"from": [joined, k], "to": "F13"}), json!({"from": [a, b, k], "to": "F14"})];
+        if src.chance(50) {
+          two.reverse();
+        }
+        maps.extend(two);
       }
       for _ in 0..n {
         maps.push(gen_mapping(src));
